@@ -27,16 +27,16 @@ type peBits struct { // an unsigned integer of the given width whose bits are tr
 }
 type peCells struct{ cells []bitvec } // backing array of bytes
 type peSlice struct {
-	arr      *peCells
-	off, n   int
-	isNil    bool
+	arr          *peCells
+	off, n       int
+	isNil        bool
 	lenLo, lenHi int64 // when arr == nil && !isNil: a slice whose length is only known to lie in [lenLo, lenHi] (lenHi < 0: unbounded)
 }
 type peStruct struct{ f map[string]peVal }
 type pePtr struct{ to *peStruct }
 type peNil struct{}
-type peErr struct{}                // some non-nil error
-type peRange struct{ lo, hi int64 }  // an int known only to lie in [lo, hi]; hi < 0 means unbounded
+type peErr struct{}                 // some non-nil error
+type peRange struct{ lo, hi int64 } // an int known only to lie in [lo, hi]; hi < 0 means unbounded
 type peTuple struct{ vs []peVal }
 
 type peFail struct{ why string }
